@@ -533,9 +533,9 @@ pub fn passes(tier: &str) -> Vec<VPass> {
     wide.clear = vec![0];
     wide.ingest = vec![(0, vec![(0, Some(1))])];
     let mut v = vec![
-        VPass { name: "snapshots+iterators", prop: vp(d.clone(), "", alpha_small(), 2, true, false, true), depth: if q { 5 } else { 6 }, min_depth: 4, secs: if q { 9.0 } else { 300.0 } },
-        VPass { name: "snapshots/clear+ingest+maintenance", prop: vp(d.clone(), "a_in_last_level", wide.clone(), 2, false, false, true), depth: if q { 5 } else { 6 }, min_depth: 4, secs: if q { 7.0 } else { 200.0 } },
-        VPass { name: "optimistic-tx views (gc amplifier)", prop: vp(Cfg { kind: DbKind::Optimistic, ..d.clone() }, "", { let mut a = Alpha::empty(); a.ins = vec![(0, 1, 1)]; a.rotate = vec![0]; a }, 2, false, true, true), depth: if q { 6 } else { 8 }, min_depth: 4, secs: if q { 6.0 } else { 400.0 } },
+        VPass { name: "snapshots+iterators", prop: vp(d.clone(), "", alpha_small(), 2, true, false, true), depth: if q { 5 } else { 6 }, min_depth: 4, secs: if q { 8.0 } else { 300.0 } },
+        VPass { name: "snapshots/clear+ingest+maintenance", prop: vp(d.clone(), "a_in_last_level", wide.clone(), 2, false, false, true), depth: if q { 5 } else { 6 }, min_depth: 4, secs: if q { 6.0 } else { 200.0 } },
+        VPass { name: "optimistic-tx views (gc amplifier)", prop: vp(Cfg { kind: DbKind::Optimistic, ..d.clone() }, "", { let mut a = Alpha::empty(); a.ins = vec![(0, 1, 1)]; a.rotate = vec![0]; a }, 2, false, true, true), depth: if q { 6 } else { 8 }, min_depth: 4, secs: if q { 5.0 } else { 400.0 } },
         VPass { name: "single-writer-tx views", prop: vp(Cfg { kind: DbKind::SingleWriter, ..d.clone() }, "", alpha_small(), 2, false, true, true), depth: if q { 5 } else { 7 }, min_depth: 3, secs: if q { 5.0 } else { 300.0 } },
     ];
     if !q {
